@@ -1,5 +1,5 @@
 From Coq Require Import Extraction ExtrOcamlBasic.
 From OV Require Import Common.Base C08.Model.
 Extraction Language OCaml.
-Extraction "C08_model.ml" repaired head defective coa_step_t rcache0 cache_max coa_step_st cstep_g ma_irregular reached_worker authenticate_radius try_server authenticate_failover_radius accounting_failover expected_wire refill_ma tier1 tier2 ident_types build_request pending0 cstep crun coa_step parse parse_attrs truncate
+Extraction "C08_model.ml" repaired head defective coa_step_t rcache0 cache_max coa_step_st cstep_g ma_irregular reached_worker authenticate_radius try_server try_server_g authenticate_failover_g_radius accounting_failover_g authenticate_failover_radius accounting_failover expected_wire refill_ma tier1 tier2 ident_types build_request pending0 cstep crun coa_step parse parse_attrs truncate
   resp_auth_ok ma_resp_ok req_auth_ok ma_req_ok_rfc ma_ok_asis find_attr80 md5 hmac extract_attributes sub.
